@@ -52,6 +52,11 @@ type readerCase struct {
 	QueueCap   int           `json:"queue_capacity"`
 	Start      string        `json:"start"` // first | last | offset
 	StartOff   int64         `json:"start_offset"`
+	// Part: the partition the reader is bound to; ExtraParts more partitions follow it; ReverseParts: the broker lists the
+	// partitions of the topic by decreasing id in its metadata
+	Part         int  `json:"part,omitempty"`
+	ExtraParts   int  `json:"extra_parts,omitempty"`
+	ReverseParts bool `json:"reverse_parts,omitempty"`
 	Steps      []step        `json:"steps"`
 	Faults     []fetchFault  `json:"faults"`
 	UseConn    bool          `json:"use_conn"`
@@ -71,11 +76,14 @@ type delivered struct {
 
 func sameBytes(a, b []byte) bool { return bytes.Equal(a, b) } // nil == empty on this path
 
+// wantPartition is the partition the reader of the running case is bound to (cases run one at a time).
+var wantPartition int
+
 func diffMessage(m kafka.Message, r refcodec.Record) string {
 	switch {
 	case m.Offset != r.Offset:
 		return fmt.Sprintf("offset %d, stored %d", m.Offset, r.Offset)
-	case m.Topic != topic || m.Partition != 0:
+	case m.Topic != topic || m.Partition != wantPartition:
 		return fmt.Sprintf("topic/partition %s/%d", m.Topic, m.Partition)
 	case !sameBytes(m.Key, r.Key):
 		return fmt.Sprintf("key %x, stored %x", m.Key, r.Key)
@@ -100,11 +108,24 @@ func run(tb ev.TB, c readerCase) (labels []string) {
 	nw := memnet.New()
 	cl := fakecluster.New(nw, c.Brokers)
 	defer cl.Close()
-	cl.CreateTopic(topic, 1)
+	wantPartition = c.Part
+	cl.CreateTopic(topic, 1+c.Part+c.ExtraParts)
+	cl.ReversePartitionOrder = c.ReverseParts
+	for p := 0; p < 1+c.Part+c.ExtraParts; p++ {
+		if p == c.Part {
+			continue
+		}
+		// the neighbours hold other records: a reader bound to the wrong partition delivers them
+		var decoys []refcodec.Record
+		for i := 0; i < 4; i++ {
+			decoys = append(decoys, refcodec.Record{Offset: int64(i), Timestamp: int64(1 + i), Value: []byte(fmt.Sprintf("decoy-p%d-%d", p, i))})
+		}
+		cl.AppendBatches(topic, int32(p), refcodec.MakeBatchV2(decoys, 0))
+	}
 	cl.SetVersions(0, 1, 0, c.FetchMax)
-	cl.AppendBatches(topic, 0, c.Initial.Batches...)
+	cl.AppendBatches(topic, int32(c.Part), c.Initial.Batches...)
 	if c.LogStart > 0 {
-		cl.SetLogRange(topic, 0, c.LogStart, 0)
+		cl.SetLogRange(topic, int32(c.Part), c.LogStart, 0)
 	}
 	lab := map[string]bool{}
 	for _, l := range c.Initial.Labels {
@@ -161,7 +182,7 @@ func run(tb ev.TB, c readerCase) (labels []string) {
 			ids := cl.BrokerIDs()
 			for _, id := range ids {
 				if id != r.BrokerID {
-					cl.MoveLeader(topic, 0, id)
+					cl.MoveLeader(topic, int32(c.Part), id)
 					break
 				}
 			}
@@ -248,7 +269,7 @@ func run(tb ev.TB, c readerCase) (labels []string) {
 	var closeFn func()
 	if c.UseConn {
 		ctx, cancel := context.WithTimeout(context.Background(), 5*time.Second)
-		conn, err := d.DialLeader(ctx, "tcp", "b1.fake:9092", topic, 0)
+		conn, err := d.DialLeader(ctx, "tcp", "b1.fake:9092", topic, c.Part)
 		cancel()
 		if err != nil {
 			tb.Fatalf("harness: dial: %v", err)
@@ -287,7 +308,7 @@ func run(tb ev.TB, c readerCase) (labels []string) {
 			conn.Close()
 		}
 	} else {
-		cfg := kafka.ReaderConfig{Brokers: []string{"b1.fake:9092"}, Topic: topic, Partition: 0, Dialer: d, MinBytes: c.MinBytes, MaxBytes: c.MaxBytes,
+		cfg := kafka.ReaderConfig{Brokers: []string{"b1.fake:9092"}, Topic: topic, Partition: c.Part, Dialer: d, MinBytes: c.MinBytes, MaxBytes: c.MaxBytes,
 			MaxWait: time.Duration(c.MaxWaitMs) * time.Millisecond, QueueCapacity: c.QueueCap, ReadBackoffMin: time.Millisecond, ReadBackoffMax: 5 * time.Millisecond,
 			ReadLagInterval: -1, MaxAttempts: 3, ReadBatchTimeout: 2 * time.Second}
 		if os.Getenv("VERIF_DEBUG") != "" {
@@ -336,7 +357,7 @@ func run(tb ev.TB, c readerCase) (labels []string) {
 
 	count, surfaced := 0, 0
 	expectNext := func() (refcodec.Record, bool) {
-		for _, r := range cl.Records(topic, 0) {
+		for _, r := range cl.Records(topic, int32(c.Part)) {
 			if r.Offset >= next {
 				return r, true
 			}
@@ -345,7 +366,7 @@ func run(tb ev.TB, c readerCase) (labels []string) {
 	}
 	everStored := map[int64]refcodec.Record{}
 	remember := func() {
-		for _, r := range cl.Records(topic, 0) {
+		for _, r := range cl.Records(topic, int32(c.Part)) {
 			everStored[r.Offset] = r
 		}
 	}
@@ -482,14 +503,14 @@ func run(tb ev.TB, c readerCase) (labels []string) {
 					count++
 				}
 			case "append":
-				cl.AppendBatches(topic, 0, s.Layout.Batches...)
+				cl.AppendBatches(topic, int32(c.Part), s.Layout.Batches...)
 				for _, l := range s.Layout.Labels {
 					lab[l] = true
 				}
 				remember()
 				lab["append_during_run"] = true
 			case "trimstart":
-				cl.SetLogRange(topic, 0, s.Offset, 0)
+				cl.SetLogRange(topic, int32(c.Part), s.Offset, 0)
 				if next < s.Offset {
 					// records below the new log start are gone; skipping them is correct, delivering prefetched ones too
 					lab["log_start_moved_past_position"] = true
@@ -561,6 +582,11 @@ func genCase(t *rapid.T) readerCase {
 		c.MaxBytes = c.MinBytes
 	}
 	c.ChunkReads = rapid.SampledFrom([]int{0, 0, 1, 7, 100}).Draw(t, "chunk")
+	if rapid.IntRange(0, 2).Draw(t, "morePartitions") == 0 {
+		c.Part = rapid.IntRange(0, 2).Draw(t, "part")
+		c.ExtraParts = rapid.IntRange(0, 2).Draw(t, "extraParts")
+		c.ReverseParts = rapid.Bool().Draw(t, "reverseParts")
+	}
 	stored := c.Initial.Records
 	switch rapid.IntRange(0, 4).Draw(t, "startKind") {
 	case 0:
